@@ -366,7 +366,7 @@ def apply_literal_rewrite(text, frm, to, expect, cnt, where):
             i += len(ftoks)
         else:
             i += 1
-    if expect is not None and len(hits) != expect:
+    if expect is not None and expect >= 0 and len(hits) != expect:
         raise AnchorLost("%s: rewrite `%s` expected %d site(s), found %d" % (where, frm, expect, len(hits)))
     if expect is None and not hits:
         raise AnchorLost("%s: rewrite `%s` found no site" % (where, frm))
@@ -865,11 +865,18 @@ def _depth_between(toks, off, idx):
 
 
 def _parse_rewrite(ln, path, i):
-    m = re.match(r"//@(unit-rewrite|rewrite|sig-rewrite|pre-rewrite)\s+`(.*?)`\s*=>\s*`(.*?)`\s*(x(\d+))?\s*$", ln)
+    m = re.match(r"//@(unit-rewrite|rewrite|sig-rewrite|pre-rewrite)\s+`(.*?)`\s*=>\s*`(.*?)`\s*(x(\d+|\*))?\s*$", ln)
     if not m:
         raise AnchorLost("%s:%d: bad rewrite directive" % (path, i + 1))
     where = {"unit-rewrite": "unit", "rewrite": "fn", "sig-rewrite": "sig", "pre-rewrite": "pre"}[m.group(1)]
-    return (m.group(2), m.group(3), int(m.group(5)) if m.group(5) else (None if where == "unit" else 1), where)
+    cnt = m.group(5)
+    if cnt == "*":
+        expect = -1          # any number of sites, including none (robust against refactoring)
+    elif cnt:
+        expect = int(cnt)
+    else:
+        expect = None if where == "unit" else 1
+    return (m.group(2), m.group(3), expect, where)
 
 
 def generate(vc_path, prelude_path, out_path):
